@@ -851,6 +851,22 @@ func (db *DB) insertRow(t *Table, cols []int, vals []any) ([]any, *Error) {
 	return row, nil
 }
 
+func sameColSet(a, b []int) bool {
+	if len(a) != len(b) {
+		return false
+	}
+	in := map[int]bool{}
+	for _, x := range a {
+		in[x] = true
+	}
+	for _, x := range b {
+		if !in[x] {
+			return false
+		}
+	}
+	return true
+}
+
 func (db *DB) execInsert(s insertStmt, args []any) (*Result, *Error) {
 	t, err := db.table(s.table)
 	if err != nil {
@@ -893,7 +909,36 @@ func (db *DB) execInsert(s insertStmt, args []any) (*Result, *Error) {
 		given = append(given, cols[i])
 	}
 	cols = given
+	if s.onConflictNothing && s.conflictCols != nil {
+		// the conflict target must name the columns of one unique constraint
+		target, err := t.colList(s.conflictCols)
+		if err != nil {
+			return nil, err
+		}
+		found := false
+		for _, u := range t.uniques {
+			if sameColSet(u.cols, target) {
+				found = true
+			}
+		}
+		if !found {
+			return nil, errf("constraint", "there is no unique or exclusion constraint matching the ON CONFLICT specification")
+		}
+	}
+	before := len(t.Rows)
 	row, err := db.insertRow(t, cols, vals)
+	if err != nil && s.onConflictNothing && strings.HasPrefix(err.Msg, "duplicate key value") {
+		// the conflicting row is not inserted and the statement succeeds with no row
+		t.Rows = t.Rows[:before]
+		if s.returning == nil && !s.retStar {
+			return &Result{Affected: 0}, nil
+		}
+		r, err := db.project(t, s.returning, s.retStar, nil, args)
+		if r != nil {
+			r.Affected = 0
+		}
+		return r, err
+	}
 	if err != nil {
 		return nil, err
 	}
